@@ -12,9 +12,9 @@ import (
 
 func init() {
 	register(&Rule{
-		ID: "C05",
+		ID:      "C05",
 		Explain: "Decides the structural premises of at-most-once user-event delivery for every delivery history: the application send in handleUserEvent is edge-dominated by the cut-off test, the retention-window test and 'no equal event in the slot'; it is unreachable from the duplicate-found edge; the mark (append to the slot) precedes it inside the eventLock write section; accepted times lie in [clock-len, clock-1] with the slot index LTime mod the same len (so retained marks are never overwritten by another retained time); every exit without delivery is behind one of those guards (so a first-seen in-window event at or above the cut-off is delivered); the cut-off is only raised. The uint64 arithmetic near 2^64 is not decided (see C19).",
-		Run: runC05,
+		Run:     runC05,
 		Mutants: []Mutant{
 			{Name: "stale-duplicate-search", File: "serf/serf.go", Func: "func (s *Serf) handleUserEvent(", Old: "\t// Add to recent events\n", New: "\t// Add to recent events\n\ts.eventLock.Unlock()\n\ts.eventLock.Lock()\n", Expect: "R3|(*Serf).handleUserEvent:mark:search-in-same-section"},
 			{Name: "window-double", File: "serf/serf.go", Func: "func (s *Serf) handleUserEvent(", Old: "eventMsg.LTime < curTime-LamportTime(len(s.eventBuffer))", New: "eventMsg.LTime < curTime-2*LamportTime(len(s.eventBuffer))", Expect: "W"},
@@ -28,9 +28,9 @@ func init() {
 		},
 	})
 	register(&Rule{
-		ID: "C08",
+		ID:      "C08",
 		Explain: "Decides C08 structurally for every query: in handleQuery the application send and the ack are edge-dominated by shouldProcessQuery(filters)==true (the ack also by the ack flag), both come after the dedupe mark, and every result past the mark is !NoBroadcast() regardless of filters; shouldProcessQuery returns true only by loop exhaustion and each filter arm continues only on decode-success ∧ (name contained | regexp matched with nil error) with the tag value tags[filt.Tag] (missing ⇒ \"\"), every other arm incl. default returning false; the internal-query stage never forwards a *Query whose name has the internal prefix; Create wires the pipeline snapshotter → internal-query stage → coalescers. Regexp semantics are not decided; the empty-filter crash is C09's.",
-		Run: runC08,
+		Run:     runC08,
 		Mutants: []Mutant{
 			{Name: "rename-locals", Equivalent: true, Regexp: true, File: "serf/query.go", Func: "func (s *Serf) shouldProcessQuery(", Old: `\b(filt|nodes|matched|tag)\b`, New: "${1}Renamed"},
 			{Name: "deliver-before-filter", File: "serf/serf.go", Func: "func (s *Serf) handleQuery(", Old: "\t// Filter the query\n", New: "\tif s.config.EventCh != nil && query.Name == \"x\" {\n\t\ts.config.EventCh <- &Query{LTime: query.LTime, Name: query.Name}\n\t}\n", Expect: "R1"},
@@ -45,9 +45,9 @@ func init() {
 		},
 	})
 	register(&Rule{
-		ID: "C14",
+		ID:      "C14",
 		Explain: "Decides C14's structural clauses: Create sets the event/query cut-offs to the matching snapshot clock + 1 and the handlers drop LTime < cut-off (the accepted (op,offset) pairs drop every t <= last); every send of a UserEvent or *Query on the application channel anywhere in the module is in handleUserEvent/handleQuery and edge-dominated by LTime >= cut-off (gossip, state sync and join replay all funnel there); cut-offs are only raised; the snapshotter records the time of every passing user event/query newer than the last recorded one and sits upstream of the application. Not covered: the <=500 ms unflushed tail at a crash.",
-		Run: runC14,
+		Run:     runC14,
 		Mutants: []Mutant{
 			{Name: "clock-field-after-append", File: "serf/snapshot.go", Func: "func (s *Snapshotter) processQuery(", Old: "\ts.lastQueryClock = q.LTime\n", New: "", Old2: "\ts.tryAppend(fmt.Sprintf(\"query-clock: %d\\n\", q.LTime))\n", New2: "\ts.tryAppend(fmt.Sprintf(\"query-clock: %d\\n\", q.LTime))\n\ts.lastQueryClock = q.LTime\n", Expect: "R5"},
 			{Name: "cutoff-no-plus-one", File: "serf/serf.go", Func: "func Create(", Old: "serf.eventMinTime = oldEventClock + 1", New: "serf.eventMinTime = oldEventClock", Expect: "R1"},
@@ -63,13 +63,13 @@ func init() {
 
 // handler vocabulary for handleUserEvent / handleQuery
 type msgHandler struct {
-	fn             *ssa.Function
-	clock, buf     string
-	minTime        string
-	list           string // slot list field
-	elem           string // what is appended (path fragment from the message)
-	sentType       string // type name sent to the application
-	dupFact        func(an.Cmp) bool
+	fn         *ssa.Function
+	clock, buf string
+	minTime    string
+	list       string // slot list field
+	elem       string // what is appended (path fragment from the message)
+	sentType   string // type name sent to the application
+	dupFact    func(an.Cmp) bool
 }
 
 func userEventHandler(c *an.Ctx, rule string) *msgHandler {
@@ -362,7 +362,9 @@ func runC08(c *an.Ctx) {
 			}
 			// continue edges: body → header. With the accept edges cut, the header is unreachable from the body
 			nodeT, tagT := cv(c, serf, "filterNodeType"), cv(c, serf, "filterTagType")
-			typ := func(t string) an.Cmp { return an.Cmp{L: "$1[(phi:rangeindex@" + itoa(header.Index) + "+c:1)][c:0]", Op: "==", R: t} }
+			typ := func(t string) an.Cmp {
+				return an.Cmp{L: "$1[(phi:rangeindex@" + itoa(header.Index) + "+c:1)][c:0]", Op: "==", R: t}
+			}
 			contains := an.EdgesWhere(sp, func(f an.Cmp) bool {
 				return strings.HasPrefix(f.L, "slices.Contains") && strings.HasSuffix(f.L, ",$0.config.NodeName)") && f.Op == "==" && f.R == "c:true"
 			})
